@@ -87,7 +87,26 @@ def _numeric_children(w, t):
     return ch
 
 
+def _adj(w, adj):
+    """<LinearAdjustment>: an attribute given as None is left out (XTCE default 0 for both)"""
+    a = {}
+    if adj[0] is not None:
+        a['slope'] = adj[0]
+    if adj[1] is not None:
+        a['intercept'] = adj[1]
+    return w.el('LinearAdjustment', a)
+
+
 def _ptype(w, t):
+    x = _ptype0(w, t)
+    if t.get('unit') and t['kind'] in ('int', 'float', 'enum', 'bool', 'str', 'bin'):
+        # <UnitSet><Unit>..</Unit></UnitSet> as the FIRST child of the parameter type
+        head, rest = x.split('>', 1)
+        x = head + '>' + w.join([w.el('UnitSet', children=[w.el('Unit', text=t['unit'])])]).rstrip() + rest
+    return x
+
+
+def _ptype0(w, t):
     k = t['kind']
     name = t['name']
     if k == 'int':
@@ -109,7 +128,7 @@ def _ptype(w, t):
         if t.get('ref'):
             dv = [w.el('ParameterInstanceRef', {'parameterRef': t['ref'], 'useCalibratedValue': str(t.get('use_cal', True)).lower()})]
             if t.get('adj'):
-                dv.append(w.el('LinearAdjustment', {'slope': t['adj'][0], 'intercept': t['adj'][1]}))
+                dv.append(_adj(w, t['adj']))
             size = w.el('Variable', {'maxSizeInBits': 64}, children=[w.el('DynamicValue', children=dv)])
         else:
             size = w.el('SizeInBits', children=[w.el('Fixed', children=[w.el('FixedValue', text=str(t['bits']))])])
@@ -118,7 +137,7 @@ def _ptype(w, t):
         if t.get('ref'):
             dv = [w.el('ParameterInstanceRef', {'parameterRef': t['ref'], 'useCalibratedValue': str(t.get('use_cal', True)).lower()})]
             if t.get('adj'):
-                dv.append(w.el('LinearAdjustment', {'slope': t['adj'][0], 'intercept': t['adj'][1]}))
+                dv.append(_adj(w, t['adj']))
             size = w.el('SizeInBits', children=[w.el('DynamicValue', children=dv)])
         else:
             size = w.el('SizeInBits', children=[w.el('FixedValue', text=str(t['bits']))])
